@@ -525,4 +525,39 @@ Proof.
   apply H; auto. apply init_spec.
 Qed.
 
+(* ---------------------------------------------------------------- consequences *)
+(* C01: a read from outside, in any reachable state *)
+Theorem read_consistent_cone : forall ops n s' v,
+  wf_ops ops -> n < length p -> effb n = false ->
+  read_top p n (run_fixed p ops) = (s', v) ->
+  Inv0 s' /\
+  (forall i, sval (getn s' i) = sval (getn (run_fixed p ops) i)) /\
+  (memob n = true -> st (getn s' n) = Clean /\ cache (getn s' n) = Some v /\ ConsistentM p s' n) /\
+  (sigb n = true -> v = sval (getn s' n)).
+Proof.
+  intros ops n s' v Hw Hn He Hr.
+  destruct (Inv_read p wfp n _ s' v (reachable_inv ops Hw) Hn He Hr) as (I' & P' & Hm & Hs).
+  split; auto. split; [apply (pr_sval _ _ _ _ _ _ P')|]. split; auto.
+  intros Hmn. destruct (Hm Hmn) as [Hc Hca]. split; auto. split; auto.
+  apply clean_consistent; auto.
+Qed.
+
+(* reading again changes nothing *)
+Theorem read_idempotent : forall ops n s1 v1 s2 v2,
+  wf_ops ops -> n < length p -> memob n = true ->
+  read_top p n (run_fixed p ops) = (s1, v1) -> read_top p n s1 = (s2, v2) -> v2 = v1.
+Proof.
+  intros ops n s1 v1 s2 v2 Hw Hn Hm H1 H2.
+  assert (He : effb n = false).
+  { unfold GraphInvariant.effb, GraphInvariant.memob in *. destruct (decl_of p n); congruence. }
+  destruct (Inv_read p wfp n _ s1 v1 (reachable_inv ops Hw) Hn He H1) as (I1 & _ & Hm1 & _).
+  destruct (Inv_read p wfp n s1 s2 v2 I1 Hn He H2) as (I2 & P2 & Hm2 & _).
+  destruct (Hm1 Hm) as [Hc1 Hca1]. destruct (Hm2 Hm) as [_ Hca2].
+  destruct (pr_stable _ _ _ _ _ _ P2 n Hm (fun x => x) Hc1) as (_ & Hca & _). congruence.
+Qed.
+
+(* C09: no body invocation (other than a first one) without a recorded cause *)
+Theorem no_causeless_run : forall ops, wf_ops ops -> nocause (run_fixed p ops) = 0.
+Proof. intros ops Hw. apply (inv_nocause _ _ _ _ (reachable_inv ops Hw)). Qed.
+
 End P.
